@@ -1,5 +1,5 @@
 CONSTANTS
-  Contracts = {"timelock", "multisig", "oraclelock", "refundlock", "voting", "sum", "erc20", "testcases"}
+  Contracts = {"timelock", "multisig", "oraclelock", "refundlock", "voting", "sum", "erc20", "testcases", "payer"}
   ArgClasses = {"valid", "valid2", "over", "missing", "garbage", "short"}
   AmtClasses = {"zero", "low", "some", "big"}
   GasClasses = {"zero", "small", "exact", "enough"}
